@@ -20,14 +20,14 @@ def _strategy(tier):
 
 
 PARTS = {"machine": {"check": make_check({"C08"}, _nt), "strategy": _strategy,
-                     "budget": {"quick": 3000, "thorough": 100000}}}
+                     "budget": {"quick": 3000, "thorough": 60000}}}
 
 def _deep_strategy(tier):
     # deep, mostly uncrossed books with many cancels from the middle (and of the best order)
     return market_cases(max_ops=60 if tier == "quick" else 300, market_frac=1, deep=True, toggles=False)
 
 
-PARTS["deep"] = {"check": make_check({"C08"}, _nt), "strategy": _deep_strategy, "budget": {"quick": 2000, "thorough": 60000}}
+PARTS["deep"] = {"check": make_check({"C08"}, _nt), "strategy": _deep_strategy, "budget": {"quick": 2000, "thorough": 40000}}
 PARTS["fuzz"] = fuzz_part("C08", {"C08"}, _nt)
 
 
